@@ -114,4 +114,16 @@ type Replay struct {
 	Minimised   bool            `json:"minimised"`
 	ShrinkTried int             `json:"shrink_tried"`
 	Plan        json.RawMessage `json:"plan"`
+	// History, if set, says that the violation depends on state left behind by
+	// EARLIER runs in the same process (a pool, a cache, a watermark): the plan
+	// alone passes in a fresh process. The replay then re-executes exactly these
+	// run indices, in order, in one fresh worker process; the violation must
+	// occur at the last one.
+	History *History `json:"history,omitempty"`
+}
+
+type History struct {
+	Tier    string   `json:"tier"`
+	Indices []uint64 `json:"run_indices"`
+	Note    string   `json:"note"`
 }
